@@ -11,6 +11,8 @@ func initWorlds() {
 	worlds["C08"] = &iterWorld{}
 	worlds["C09"] = &histWorld{prop: "C09", tags: []string{"C09"}, kinds: []string{"linkedhashmap", "linkedhashset"}, minOps: 8}
 	worlds["C10"] = &histWorld{prop: "C10", tags: []string{"C10"}, kinds: []string{"hashbidimap", "treebidimap"}, minOps: 8}
+	worlds["C11"] = &jsonWorld{prop: "C11"}
+	worlds["C12"] = &jsonWorld{prop: "C12"}
 	worlds["C13"] = &algWorld{}
 	worlds["C14"] = &enumWorld{}
 	worlds["C16"] = &scribbleWorld{}
